@@ -625,6 +625,7 @@ func main() {
 		*contracts = *repo + "/verif_contracts.go"
 	}
 	t0 := time.Now()
+	parseTier = *tier
 	prog, err := loadProg(*repo, *contracts, *prelude)
 	if err != nil {
 		fmt.Fprintln(os.Stderr, "govc: load:", err)
